@@ -29,8 +29,17 @@ ASSUMPTIONS = [
 
 def models(ctx, R):
     ms = []
+    seen = set()
     for b in adapter_fns(ctx, R):
         ms.append(AdapterModel(ctx, R, b))
+        seen.add(b.path)
+    # any other function that pulls from the upstream and answers a Poll (a `poll_progress`-style driver added next to
+    # poll_next) is held to the same rules
+    from adapters import upstream_pollers
+    for b in upstream_pollers(ctx, R):
+        if b.path not in seen and re.match(r"core::task::Poll<", b.locals[0] or ""):
+            ms.append(AdapterModel(ctx, R, b))
+            seen.add(b.path)
     return ms
 
 
